@@ -164,3 +164,21 @@ def need_parser_crate(F):
     from .core import need
     need(F.abortable_parser_version == "0.2.3",
          "abortable_parser %s: the variant summaries of its combinators (cfg.VARIANT_SUMMARIES) were read from 0.2.3" % F.abortable_parser_version)
+
+
+def err_edges(fn, result_local):
+    """blocks entered when the Result held in `result_local` is an Err: the Err edge of a direct match and/or the
+    Break edge of `?` (Try::branch) applied to it"""
+    out = []
+    sws = enum_switches(fn, result_local)
+    sws = [x for x in sws if x[1].get("enum") == "core::result::Result"]
+    first = [x for x in sws if all(cfg.dominates(fn, x[0], y[0]) for y in sws)]
+    for sb, st in first:
+        out.append(cfg.switch_edge(st, variant="Err"))
+    cps = copies_of(fn, result_local, allow_not=False)
+    for b, t in fn.calls():
+        if callee(t).endswith("Try>::branch") and op_local(t["args"][0]) in cps:
+            for sb, st in enum_switches(fn, t["dest"]["l"]):
+                if st.get("enum") == "core::ops::control_flow::ControlFlow":
+                    out.append(cfg.switch_edge(st, variant="Break"))
+    return out
